@@ -279,7 +279,8 @@ ReuseDom(k) ==
     [] k = "TWCC" -> { MkTWCC(0, << >>, << >>, FALSE),
                        MkTWCC(1, << Rl(1, 1) >>, << Dl(1, 7) >>, FALSE),
                        MkTWCC(3, << Sv2(<< 1, 2, 0 >>) >>, << Dl(1, 1), Dl(2, 513) >>, FALSE),
-                       MkTWCC(9, << Sv2(<< 1, 2, 3, 0, 1, 2, 3 >>), Rl(1, 2) >>, << Dl(1, 1), Dl(2, 2), Dl(1, 3), Dl(2, 4), Dl(1, 5), Dl(1, 6) >>, FALSE) }
+                       MkTWCC(9, << Sv2(<< 1, 2, 3, 0, 1, 2, 3 >>), Rl(1, 2) >>, << Dl(1, 1), Dl(2, 2), Dl(1, 3), Dl(2, 4), Dl(1, 5), Dl(1, 6) >>, FALSE),
+                       MkTWCC(5, << Rl(1, 5) >>, [i \in 1..5 |-> Dl(1, 4)], FALSE) }
     [] k = "XR" -> Tiny("XR") \cup { MkXR(<< >>), MkXR(<< XrB("rrt"), XrB("dlrr"), XrB("voip") >>),
                                      MkXR(<< [XrB("dlrr") EXCEPT !.reports = [i \in 1..3 |-> [ssrc |-> << i, 2, 2, i >>, lrr |-> D4(i), dlrr |-> D4(100 + i)]]] >>),
                                      MkXR(<< [XrB("lrle") EXCEPT !.chunks = [i \in 1..4 |-> 40000 + i]] >>),
@@ -365,6 +366,7 @@ MalformedFrames ==
     << 129, 203, 0, 0 >> }                                                \* BYE claiming a source it does not hold
 TailJunk ==
   { << 0 >>, << 0, 0, 0, 0 >>, Zeros(8),                                  \* surplus null octets (not a packet: version 0)
+    << 23, 42, 153, 4 >>, << 23, 42, 153, 0, 0, 0, 0, 8 >>, << 0, 0, 0, 4 >>, \* surplus that ends like a padding (its last octet counts it)
     << 128 >>, << 128, 200, 0 >>, << 129, 206, 0, 2, 1, 2, 3, 4 >>,       \* PLI cut after 8 of 12 octets
     << 128, 200, 255, 255 >>,                                             \* header announcing 262144 octets
     \* length fields whose octet count wraps 16 bits: 4 * (0x3FFF + 1) = 65536, 4 * (0x4000 + 1) = 65540, 4 * (0x4001 + 1) = 65544
